@@ -12,6 +12,7 @@ package twins
 //     commit logs it returns.
 
 import (
+	"sync"
 	"bytes"
 	"encoding/json"
 	"errors"
@@ -1031,4 +1032,96 @@ func TestC18ExecutorReport(t *testing.T) {
 			Rules:      rapid.SampledFrom([]string{rules.NameChainedHotStuff, rules.NameChainedHotStuff, rules.NameSimpleHotStuff, rules.NameFastHotStuff}).Draw(rt, "rules"),
 		}
 	}, execProp)
+}
+
+// ---- concurrent drawing: `twins run --concurrency N` lets N workers draw from ONE generator ------------------------------
+
+type concCase struct {
+	Gen     genCase
+	Workers int
+}
+
+// concProp: the scenarios handed out to concurrent workers are, as a multiset, exactly the sequential enumeration.
+func concProp(c concCase) common.Result {
+	ref, announced, fail := newGen(c.Gen, c.Gen.Shuffle)
+	if fail != nil {
+		return *fail
+	}
+	if announced == 0 || announced > 8000 {
+		return common.OK(false, "", "conc skipped (empty or large)")
+	}
+	want := map[string]int{}
+	for i := int64(0); i < announced; i++ {
+		s, err, p := next(ref)
+		if p != "" || err != nil {
+			return common.OK(false, "", "conc skipped (sequential enumeration failed; covered by the generator checks)")
+		}
+		want[canonScenario(s)]++
+	}
+	g, _, fail := newGen(c.Gen, c.Gen.Shuffle)
+	if fail != nil {
+		return *fail
+	}
+	got := make([]map[string]int, c.Workers)
+	var wg sync.WaitGroup
+	for w := 0; w < c.Workers; w++ {
+		got[w] = map[string]int{}
+		wg.Add(1)
+		go func(m map[string]int) {
+			defer wg.Done()
+			for {
+				s, err, p := next(g)
+				if p != "" || err != nil {
+					return
+				}
+				m[canonScenario(s)]++
+			}
+		}(got[w])
+	}
+	wg.Wait()
+	total := map[string]int{}
+	n := 0
+	for _, m := range got {
+		for k, v := range m {
+			total[k] += v
+			n += v
+		}
+	}
+	if int64(n) != announced {
+		return common.Fail("concurrent-count", "%v, %d workers: %d scenarios were handed out, %d announced", c.Gen, c.Workers, n, announced)
+	}
+	dup, unknown, missing := 0, 0, 0
+	for k, v := range total {
+		if want[k] == 0 {
+			unknown++
+		} else if v > want[k] {
+			dup += v - want[k]
+		}
+	}
+	for k, v := range want {
+		if total[k] < v {
+			missing += v - total[k]
+		}
+	}
+	if dup+unknown+missing > 0 {
+		return common.Fail("concurrent-enumeration", "%v, %d workers drawing from one generator: %d scenarios handed out more than once, %d never handed out, %d that the sequential enumeration does not contain (announced %d)", c.Gen, c.Workers, dup, missing, unknown, announced)
+	}
+	return common.OK(true, fmt.Sprintf("%v|%d", c.Gen, c.Workers), "concurrent-draw")
+}
+
+func genConc(rt *rapid.T) concCase {
+	g := genCase{Nodes: uint8(rapid.IntRange(2, 4).Draw(rt, "nodes")), Twins: uint8(rapid.IntRange(0, 1).Draw(rt, "twins")),
+		Partitions: uint8(rapid.IntRange(1, 2).Draw(rt, "partitions")), Views: uint8(rapid.IntRange(1, 3).Draw(rt, "views")),
+		Shuffle: rapid.Bool().Draw(rt, "shuffle"), Seed: rapid.Int64().Draw(rt, "seed")}
+	return concCase{Gen: g, Workers: rapid.IntRange(2, 8).Draw(rt, "workers")}
+}
+
+// TestC18ConcurrentDraw: goroutine interleavings are sampled (the harness does not own the schedule); TestC18RaceConcurrentDraw
+// runs the same under the race detector.
+func TestC18ConcurrentDraw(t *testing.T) {
+	common.Check(t, c18, "TestC18ConcurrentDraw", 400, 8000, genConc, concProp)
+}
+
+func TestC18RaceConcurrentDraw(t *testing.T) {
+	common.Check(t, c18, "TestC18RaceConcurrentDraw", 60, 1200, genConc, concProp)
 }
